@@ -189,3 +189,101 @@ Proof.
   - destruct (p_idle s P c H0) as [A _]. exact A.
   - destruct (p_idle s P c H0) as [A _]. apply (p_ok s P). rewrite A. discriminate.
 Qed.
+
+(* ---- request numbering on one connection: strictly increasing, and final once it failed ---- *)
+From Coq Require Import Sorted.
+
+Lemma step_bsent : forall s l s', PInv s -> pstep s l = Some s' -> forall c,
+  (bsent (cn s' c) = bsent (cn s c) /\ nex (cn s c) <= nex (cn s' c)) \/
+  (exists r, bsent (cn s' c) = (nex (cn s c) + 1, r) :: bsent (cn s c) /\
+             nex (cn s' c) = nex (cn s c) + 1 /\ cst (cn s c) = CBusy r).
+Proof.
+  intros s l s' PI H c.
+  destruct l.
+  14: { destruct (closeidle_cn s g s' H) as [Hc _]. left.
+        destruct (Hc c) as [E|E]; rewrite E; (split; [reflexivity|cbn [nex set_cst]; try lia]). }
+  all: pose proof (p_fresh s PI (nconn s) (le_n _)) as Fz; unfold cn in Fz.
+  all: pstep_inv H; unf; case_eqb; simp_p;
+       try (left; split; [reflexivity|lia]);
+       try (rewrite Fz; cbn; left; split; [reflexivity|lia]);
+       try (right; eexists; repeat split; eauto; fail).
+Qed.
+
+Lemma closed_stays : forall s l s', PInv s -> pstep s l = Some s' -> forall c,
+  (c < nconn s)%nat -> cst (cn s c) = CClosed -> cst (cn s' c) = CClosed.
+Proof.
+  intros s l s' PI H c Lt Cc.
+  destruct l.
+  14: { destruct (closeidle_cn s g s' H) as [Hc _]. destruct (Hc c) as [E|E]; rewrite E; auto. }
+  all: pose proof (p_idle s PI) as Pi.
+  all: pstep_inv H;
+       try match goal with E : pop_group _ _ _ = Some _ |- _ =>
+         apply pop_group_spec in E; destruct E as [Pa _]; destruct (Pi _ Pa) as [Pl _] end;
+       try match goal with X : mem _ _ = true |- _ => apply mem_true in X; destruct (Pi _ X) as [Pl _] end;
+       unf; case_eqb; simp_p; try congruence; try lia; auto.
+Qed.
+
+Definition SInv (s : pstate) : Prop := forall c,
+  StronglySorted Z.gt (map fst (bsent (cn s c))) /\
+  Forall (fun k => 1 <= k <= nex (cn s c)) (map fst (bsent (cn s c))).
+
+Lemma SInv_init : SInv pinit.
+Proof. intros c. unfold cn. cbn. split; constructor. Qed.
+
+Lemma SInv_step : forall s l s', PInv s -> NInv s -> SInv s -> pstep s l = Some s' -> SInv s'.
+Proof.
+  intros s l s' PI NI S H c. destruct (S c) as [Ss Sf].
+  destruct (step_bsent s l s' PI H c) as [[E M]|[r [E [M _]]]]; rewrite E.
+  - split; [exact Ss|]. eapply Forall_impl; [|exact Sf]. cbn. intros k X. lia.
+  - cbn [map fst]. rewrite M. destruct (n_id s NI c) as [_ N0]. split.
+    + constructor; [exact Ss|]. eapply Forall_impl; [|exact Sf]. cbn. intros k X. lia.
+    + constructor; [lia|]. eapply Forall_impl; [|exact Sf]. cbn. intros k X. lia.
+Qed.
+
+(* in every reachable state the ordinals of the requests a connection carried are strictly
+   increasing in send order (newest first in [bsent]); the id on the wire of ordinal k is
+   [wrap32 k], so below 2^31 requests the wire ids are strictly increasing as well *)
+Lemma pool_ids_increasing : forall ls s, prun pinit ls = Some s ->
+  forall c, StronglySorted Z.gt (map fst (bsent (cn s c))) /\
+            Forall (fun k => 1 <= k <= nex (cn s c)) (map fst (bsent (cn s c))).
+Proof.
+  intros ls s H.
+  assert (X : PInv s /\ NInv s /\ SInv s).
+  { eapply (pinv_run (fun x => PInv x /\ NInv x /\ SInv x));
+      [|split; [exact PInv_init|split; [exact NInv_init|exact SInv_init]]|exact H].
+    intros x l x' [A [B C]] St. split; [eapply PInv_step; eauto|].
+    split; [eapply NInv_step; eauto|eapply SInv_step; eauto]. }
+  destruct X as [_ [_ S]]. exact S.
+Qed.
+
+(* a failed exchange leaves the run loop: the connection is CClosed at once ... *)
+Lemma failing_steps_close : forall s c,
+  (forall s', pstep s (CWrite c false) = Some s' -> cst (cn s' c) = CClosed) /\
+  (forall s', pstep s (CReadFail c) = Some s' -> cst (cn s' c) = CClosed) /\
+  (forall s', pstep s (CRead c) = Some s' ->
+     cst (cn s' c) = CClosed \/ lastok (cn s' c) = true).
+Proof.
+  intros s c. repeat split; intros s' H; pstep_inv H; unf; rewrite ?Nat.eqb_refl; cbn; auto.
+Qed.
+
+(* ... and CClosed is final: such a connection never carries another request *)
+Lemma pool_failed_conn_final : forall ls s s' c,
+  PInv s -> (c < nconn s)%nat -> cst (cn s c) = CClosed -> prun s ls = Some s' ->
+  cst (cn s' c) = CClosed /\ bsent (cn s' c) = bsent (cn s c).
+Proof.
+  intros ls s s' c PI Lt Cc H.
+  assert (X : PInv s' /\ (c < nconn s')%nat /\ cst (cn s' c) = CClosed /\ bsent (cn s' c) = bsent (cn s c)).
+  { eapply (pinv_run (fun x => PInv x /\ (c < nconn x)%nat /\ cst (cn x c) = CClosed /\
+                               bsent (cn x c) = bsent (cn s c))); [| |exact H].
+    - intros x l x' [A [B [C D]]] St. split; [eapply PInv_step; eauto|].
+      assert (Mn : (nconn x <= nconn x')%nat).
+      { destruct l; try (destruct (closeidle_cn x g x' St) as [_ _]);
+          try (unfold pstep in St; inversion St; subst;
+               match goal with |- context [close_all ?s1 ?l0] =>
+                 destruct (close_all_fields l0 s1) as [_ [_ [_ Fn]]]; rewrite Fn; cbn; lia end);
+          pstep_inv St; unf; lia. }
+      split; [lia|]. split; [eapply closed_stays; eauto|].
+      destruct (step_bsent x l x' A St c) as [[E _]|[r [_ [_ E]]]]; [congruence|congruence].
+    - split; [exact PI|split; [exact Lt|split; [exact Cc|reflexivity]]]. }
+  tauto.
+Qed.
